@@ -55,7 +55,7 @@ def generate(prop, rng):
     ops = []
     kinds = [(3, "get"), (2, "contains"), (3, "iteritems"), (3, "ls"), (2, "info"), (1, "diff"),
              (2, "fs_ls"), (1, "fs_info"), (1, "fs_find"), (2, "fs_open"), (3, "view"), (1, "load"), (1, "reopen"),
-             (1, "evict_restore")]
+             (1, "evict_restore"), (2, "view_ls"), (1, "view_fs_find")]
     for _ in range(rng.randint(4, 20)):
         ops.append({"op": gen.weighted(rng, kinds), "r": rng.random(), "r2": rng.random(),
                     "shallow": rng.random() < 0.3, "detail": rng.random() < 0.5, "absent": rng.random() < 0.15})
@@ -300,13 +300,31 @@ def execute(sc, ctx):
                 cand = [kk for kk in dirkeys + inside if kk != () and f(kk) and F.get(kk, ("dir",))[0] == "dir"]
                 prefix = pick(cand, (r + r2) / 2) if cand else None
             kw = {"prefix": prefix} if prefix is not None else {}
+            if op["shallow"] and prefix is not None:
+                kw["shallow"] = True
             try:
                 first = sorted(key for key, _ in v.iteritems(**kw))
                 second = sorted(key for key, _ in v.iteritems(**kw))
             except KeyError:
                 return ("KeyError", prefix)
             want_keys = sorted(kk for kk in keys if f(kk) and (prefix is None or kk[: len(prefix)] == prefix))
+            if kw.get("shallow"):
+                want_keys = [prefix]  # the prefix carries an entry: a shallow iteration stops there
             return ("ok", first, second, want_keys)
+        if k in ("view_ls", "view_fs_find"):
+            # an all-admitting view must answer listings exactly like the index it wraps
+            v = view(idx, lambda key: True)
+            if k == "view_fs_find":
+                return ("ok", sorted(DataFileSystem(v).find("/")))
+            key = pick(dirkeys, r)
+            if key == ():
+                key = pick([d for d in dirkeys if d != ()] or [()], r2)
+            try:
+                if op["detail"]:
+                    return ("ok", sorted((ck, inf["type"], inf.get("md5")) for ck, inf in v.ls(key, detail=True)))
+                return ("ok", sorted(v.ls(key, detail=False)))
+            except KeyError:
+                return ("KeyError",)
         raise HarnessError("unknown op " + k)
 
     def expect(op):
@@ -323,7 +341,7 @@ def execute(sc, ctx):
             if k == "get":
                 return ("ok", (v[0], v[1]))
             return ("ok", ("directory" if v[0] == "dir" else "file", v[1]))
-        if k == "fs_find":
+        if k in ("fs_find", "view_fs_find"):
             return ("ok", sorted("/" + "/".join(kk) for kk in filekeys))
         if k == "fs_open":
             key = pick(filekeys, r)
